@@ -169,7 +169,7 @@ def make_struct_members(xml_elem, dynamic_array=False):
                 sizer_name = "numOf" + xml_elem_name[:1].upper() + xml_elem_name[1:]
                 yield model.StructMember(xml_elem_name, xml_elem_type, bound=sizer_name, docstring=comment)
 
-            elif "isVariableSize" in dimension.attrib:
+            elif dimension.get("isVariableSize", "false").lower() not in ("false", "0"):
                 type_ = dimension.get("variableSizeFieldType", "u32")
                 sizer_name = dimension.get("variableSizeFieldName", xml_elem_name + "_len")
                 yield model.StructMember(sizer_name, type_, docstring=comment)
